@@ -54,6 +54,7 @@ struct Obs {
 static void wait_blocked(wire::Duplex &d, Obs &ob)
 {
 	double t0 = now();
+	unsigned spins = 0;
 	std::unique_lock<std::mutex> lk(d.sh.mu);
 	while (true)
 	{
@@ -71,7 +72,9 @@ static void wait_blocked(wire::Duplex &d, Obs &ob)
 		}
 		if (d.ab.closed) return;
 		if (now() - t0 > 60.0) { ob.harness_timeout = true; return; }
-		d.sh.cv.wait_for(lk, std::chrono::microseconds(100));
+		// Pipe::read does not notify when it logs the blocked read: poll (spin briefly, then sleep in short slices)
+		if (++spins < 2000) { lk.unlock(); std::this_thread::yield(); lk.lock(); }
+		else d.sh.cv.wait_for(lk, std::chrono::microseconds(50));
 	}
 }
 
@@ -121,6 +124,65 @@ static bool peer_script(wire::Duplex &d, std::iostream &s, const Group &G, Plan 
 	s << lx << std::endl << ly << std::endl;
 	while (std::getline(s, l)) {}
 	return true;
+}
+
+
+// wire::run2 with the same semantics, but the honest role runs on the calling thread and the peer on ONE persistent worker
+// thread (two thread creations per execution dominate the cost of ~10^4 executions on a loaded machine).
+struct PeerThread {
+	std::mutex mu;
+	std::condition_variable cv;
+	std::function<void()> job;
+	bool has_job, done, quit;
+	std::thread th;
+	PeerThread() : has_job(false), done(true), quit(false), th([this]() { loop(); }) {}
+	void loop()
+	{
+		std::unique_lock<std::mutex> lk(mu);
+		while (true)
+		{
+			cv.wait(lk, [&] { return has_job || quit; });
+			if (quit) return;
+			std::function<void()> j = job;
+			lk.unlock();
+			j();
+			lk.lock();
+			has_job = false, done = true;
+			cv.notify_all();
+		}
+	}
+	void start(const std::function<void()> &j) { std::unique_lock<std::mutex> lk(mu); job = j, has_job = true, done = false; cv.notify_all(); }
+	void wait() { std::unique_lock<std::mutex> lk(mu); cv.wait(lk, [&] { return done; }); }
+	~PeerThread() { { std::unique_lock<std::mutex> lk(mu); quit = true; cv.notify_all(); } th.join(); }
+};
+static PeerThread *g_peer = nullptr;
+
+static wire::Outcome run2p(wire::Duplex &d, const std::function<bool(std::iostream &)> &roleA, const std::function<bool(std::iostream &)> &roleB,
+	mcenv::CoinSource *csA, mcenv::CoinSource *csB)
+{
+	wire::Outcome o;
+	o.a_ok = o.b_ok = false, o.a_threw = o.b_threw = false, o.timeout = false;
+	if (!g_peer) g_peer = new PeerThread();
+	g_peer->start([&]() {
+		mcenv::cur = csB;
+		try { o.b_ok = roleB(d.B); }
+		catch (std::exception &e) { o.b_threw = true; o.b_what = e.what(); }
+		catch (...) { o.b_threw = true; o.b_what = "non-std exception"; }
+		d.B.flush();
+		d.ba.close();
+		mcenv::cur = nullptr;
+	});
+	mcenv::CoinSource *saved = mcenv::cur;
+	mcenv::cur = csA;
+	try { o.a_ok = roleA(d.A); }
+	catch (std::exception &e) { o.a_threw = true; o.a_what = e.what(); }
+	catch (...) { o.a_threw = true; o.a_what = "non-std exception"; }
+	d.A.flush();
+	d.ab.close();
+	mcenv::cur = saved;
+	g_peer->wait();
+	o.timeout = d.any_timeout();
+	return o;
 }
 
 struct World {
@@ -183,7 +245,7 @@ static void run_case(Report &R, World &W, const std::string &cell, const std::st
 	Obs ob;
 	mpz_set_si(W.aout, -1), mpz_set_si(W.bout, -1);
 	size_t role = W.role;
-	wire::Outcome o = wire::run2(d,
+	wire::Outcome o = run2p(d,
 		[&](std::iostream &s) { std::stringstream err; return W.honest->Flip_twoparty(role, W.aout, s, s, err); },
 		[&](std::iostream &s) -> bool {
 			if (peer_real)
@@ -192,7 +254,7 @@ static void run_case(Report &R, World &W, const std::string &cell, const std::st
 				return W.realpeer->Flip_twoparty(1 - role, W.bout, s, s, err, peer_real == 2);
 			}
 			return peer_script(d, s, G, pl, ob);
-		}, seed, &csA, &csB);
+		}, &csA, &csB);
 	g_runs++;
 	bool accepted = o.a_ok && !o.a_threw;
 	if (accepted) g_accept++; else if (o.a_threw) g_threw++; else g_reject++;
@@ -313,7 +375,7 @@ int main(int argc, char **argv)
 	Report R(A);
 	if (!init_libTMCG()) return 2;
 	MuteCerr mute;
-	bool thorough = A.tier == "thorough";
+	bool thorough = A.tier == "thorough" && !A.has("light");   // --light: quick-sized alphabets (asan pass of the thorough tier)
 	uint64_t seed = mcenv::env_seed();
 	std::vector<Group *> groups;
 	{
@@ -329,7 +391,6 @@ int main(int argc, char **argv)
 	}
 	unsigned nseeds = thorough ? 16 : 4;
 	const char *FAM[] = { "honest", "real", "realfaulty", "withhold", "mutC", "muta", "muty" };
-	std::set<std::string> distinct;
 	for (size_t gi = 0; gi < groups.size(); gi++)
 	{
 		const Group &G = *groups[gi];
@@ -437,5 +498,6 @@ int main(int argc, char **argv)
 	R.bound = std::string("tiny q (all residues) + small groups, both indices, 7 families; tier ") + A.tier;
 	R.finish();
 	for (size_t i = 0; i < groups.size(); i++) delete groups[i];
+	delete g_peer;
 	return 0;
 }
